@@ -83,7 +83,7 @@ func (g *Gen) histType(depth int) *Ty {
 }
 
 func genHistory(g *Gen, w *bufio.Writer, t *Ty, o histOpts) {
-	fmt.Fprintln(w, "begin")
+	fmt.Fprintln(w, g.beginLine())
 	v := g.RandVal(t, 60)
 	route := []string{"new", "new", "dec", "def"}[g.Intn(4)]
 	if route == "def" {
@@ -474,10 +474,13 @@ func init() {
 	})
 	registerGen("C07", func(g *Gen, tier string, w *bufio.Writer) {
 		n := tierN(tier, 300, 5000)
+		g.zHist = true // the memo's "not computed" sentinel is the all-zero root only
 		for _, t := range histTypes(g, n) {
 			genHistory(g, w, t, histOpts{steps: 3 + g.Intn(10), hcount: true})
 		}
-		genC07Targeted(g, tier, w)
+		g.zHist = false
+		genC07Targeted(g, tier, w, "begin")
+		genC07Targeted(g, tier, w, "begin z")
 	})
 	registerGen("C17", func(g *Gen, tier string, w *bufio.Writer) {
 		n := tierN(tier, 300, 5000)
@@ -964,7 +967,7 @@ func genBoundaryHist(g *Gen, tier string, w *bufio.Writer) {
 // appends from empty through every power-of-two boundary (zero padding is expanded level by
 // level), sets, pops, default-constructed vectors (shared children), mutations through nested
 // sub-views, and elements moved from one tree into another.
-func genC07Targeted(g *Gen, tier string, w *bufio.Writer) {
+func genC07Targeted(g *Gen, tier string, w *bufio.Writer, begin string) {
 	u64 := &Ty{Kind: KUint, N: 8}
 	elems := []*Ty{u64, {Kind: KUint, N: 1}, {Kind: KBytesN, N: 32}, {Kind: KContainer, Fields: []*Ty{u64, u64}}, {Kind: KContainer, Fields: []*Ty{u64}}}
 	limits := []uint64{4, 16, 1024, 1 << 20, 1 << 40}
@@ -972,7 +975,7 @@ func genC07Targeted(g *Gen, tier string, w *bufio.Writer) {
 	for _, e := range elems {
 		for _, lim := range limits {
 			lt := &Ty{Kind: KList, N: lim, Elem: e}
-			fmt.Fprintln(w, "begin")
+			fmt.Fprintln(w, begin)
 			fmt.Fprintf(w, "mk r def %s\n", lt)
 			fmt.Fprintln(w, "hcount r")
 			n := uint64(0)
@@ -988,6 +991,11 @@ func genC07Targeted(g *Gen, tier string, w *bufio.Writer) {
 			for k := 0; k < 4 && n > 0; k++ {
 				fmt.Fprintf(w, "set r %d %s\n", g.Intn(int(n)), g.RandVal(e, 4))
 				fmt.Fprintln(w, "hcount r")
+				if k == 1 {
+					// the zero-hash table is initialised again with the same function: cached roots stay valid
+					fmt.Fprintf(w, "rehash %s\n", map[string]string{"begin": "sha", "begin z": "z"}[begin])
+					fmt.Fprintln(w, "hcount r")
+				}
 			}
 			for k := 0; k < 5 && n > 0; k++ {
 				fmt.Fprintln(w, "pop r")
@@ -1002,7 +1010,7 @@ func genC07Targeted(g *Gen, tier string, w *bufio.Writer) {
 		// default-constructed vectors: children are shared nodes
 		for _, k := range []uint64{2, 5, 16, 33} {
 			vt := &Ty{Kind: KVector, N: k, Elem: e}
-			fmt.Fprintln(w, "begin")
+			fmt.Fprintln(w, begin)
 			fmt.Fprintf(w, "mk r def %s\n", vt)
 			fmt.Fprintln(w, "hcount r")
 			fmt.Fprintln(w, "hcount r")
@@ -1012,7 +1020,7 @@ func genC07Targeted(g *Gen, tier string, w *bufio.Writer) {
 			}
 		}
 	}
-	fmt.Fprintln(w, "begin")
+	fmt.Fprintln(w, begin)
 	fmt.Fprintf(w, "mk r def %s\n", &Ty{Kind: KBitvector, N: 1024})
 	fmt.Fprintln(w, "hcount r")
 	fmt.Fprintln(w, "hcount r")
@@ -1030,7 +1038,7 @@ func genC07Targeted(g *Gen, tier string, w *bufio.Writer) {
 		if len(v.Seq[1].Seq) >= 8 {
 			v.Seq[1].Seq = v.Seq[1].Seq[:7]
 		}
-		fmt.Fprintln(w, "begin")
+		fmt.Fprintln(w, begin)
 		fmt.Fprintf(w, "mk r new %s %s\n", outer, v)
 		fmt.Fprintln(w, "hcount r")
 		fmt.Fprintln(w, "get a r 0")
